@@ -48,6 +48,51 @@ theorem handler_only_if_wellformed (v : ServerView) (reg : List Nat) (e : Env)
               all_goals simp_all
             · simp at h
 
+/-- The method grammar, exactly: a method resolves to (service, method) iff, after ONE optional leading
+    slash, it is `service ++ "/" ++ method` with no slash in `method` (the split is at the last slash). -/
+theorem method_parse_spec (sm svc meth : Bytes) (h : parseRawMethod sm = some (svc, meth)) :
+    strip sm = svc ++ 47 :: meth ∧ 47 ∉ meth := by
+  rw [parse_eq] at h
+  exact parseS_spec _ _ _ h
+
+/-- … and every canonical name `/service/method` resolves to its parts -/
+theorem method_canonical (svc meth : Bytes) (hm : 47 ∉ meth) :
+    parseRawMethod (47 :: (svc ++ 47 :: meth)) = some (svc, meth) := by
+  rw [parse_eq]
+  exact parseS_complete svc meth hm
+
+/-- A method with MORE than one leading slash never resolves to a service whose name is non-empty and
+    does not itself begin with a slash: only one slash is optional. -/
+theorem method_extra_slash_never_resolves (rest svc meth : Bytes)
+    (h : parseRawMethod (47 :: 47 :: rest) = some (svc, meth)) : svc = [] ∨ svc.head? = some 47 := by
+  obtain ⟨hs, _⟩ := method_parse_spec _ _ _ h
+  cases svc with
+  | nil => exact Or.inl rfl
+  | cons a t =>
+    right
+    simp only [strip, List.cons_append, List.cons.injEq] at hs
+    simp [hs.1]
+
+/-- … so no handler runs for it on a server whose services have ordinary names -/
+theorem extra_slash_no_handler (v : ServerView) (reg : List Nat) (e : Env) (hd : Header) (rest : Bytes)
+    (hh : e.header = some hd) (hm : hd.method = 47 :: 47 :: rest)
+    (hv : ∀ x ∈ v.services, x.1 ≠ [] ∧ x.1.head? ≠ some 47) :
+    classify true v reg e ≠ .dispatchUnary ∧ classify true v reg e ≠ .openStream := by
+  have key : ¬ (classify true v reg e = .dispatchUnary ∨ classify true v reg e = .openStream) := by
+    intro h
+    obtain ⟨hd', svc, meth, u, s, hh', hp, _, hf, _⟩ := handler_only_if_wellformed v reg e h
+    rw [hh] at hh'; cases hh'
+    rw [hm] at hp
+    have hmem : (svc, u, s) ∈ v.services := List.mem_of_find?_eq_some hf
+    have := hv _ hmem
+    rcases method_extra_slash_never_resolves _ _ _ hp with h0 | h0
+    · exact this.1 h0
+    · exact this.2 h0
+  exact ⟨fun h => key (Or.inl h), fun h => key (Or.inr h)⟩
+
+example : parseRawMethod [47, 47, 97, 47, 98] = some ([47, 97], [98]) ∧ parseRawMethod [47, 97, 47, 98] = some ([97], [98])
+    ∧ parseRawMethod [97, 47, 98] = some ([97], [98]) := by decide
+
 /-- A body for a stream the server does not know is answered with a reset for that id. -/
 theorem body_unknown_id_resets (v : ServerView) (reg : List Nat) (e : Env) (hd : Header) (svc meth : Bytes) (u s : List Bytes)
     (h1 : e.header = some hd) (h2 : parseRawMethod hd.method = some (svc, meth)) (h3 : hd.dst = v.name)
